@@ -148,6 +148,10 @@ pub struct RawComp {
     pub transform: Vec<i16>,
 }
 
+/// Instructions written after the last component of a `RawComposite` whose last component carries
+/// WE_HAVE_INSTRUCTIONS (0x0100): PUSHB[2] 1 2, POP, POP, and an odd length on purpose.
+pub const RAW_COMPOSITE_INSTRUCTIONS: [u8; 5] = [0xB1, 0x01, 0x02, 0x21, 0x21];
+
 #[derive(Clone, Debug, PartialEq, Eq)]
 pub enum Shape {
     Empty,
@@ -457,6 +461,15 @@ pub fn tuple_point_deltas(shape: &Shape, t: &TupleVar, opts: &EvalOpts) -> Vec<(
         }
     }
     let mut out: Vec<(Rat, Rat)> = explicit.iter().map(|e| e.map_or((Rat::ZERO, Rat::ZERO), |d| (Rat::int(d.0 as i64), Rat::int(d.1 as i64)))).collect();
+    if let Shape::RawComposite(_, comps) = shape {
+        // gvar, "Point numbers and processing for composite glyphs": a component positioned by point numbers
+        // (ARGS_ARE_XY_VALUES clear) is not affected by deltas
+        for (i, c) in comps.iter().enumerate() {
+            if c.flags & 0x0002 == 0 {
+                out[i] = (Rat::ZERO, Rat::ZERO);
+            }
+        }
+    }
     if opts.no_iup {
         return out;
     }
@@ -1314,6 +1327,9 @@ pub fn encode_glyph(font: &VarFont, gid: usize) -> Vec<u8> {
                 w.i16(*t);
             }
         }
+        if comps.last().map_or(false, |c| c.flags & 0x0100 != 0) {
+            w.u16(RAW_COMPOSITE_INSTRUCTIONS.len() as u16).bytes(&RAW_COMPOSITE_INSTRUCTIONS);
+        }
     }
     w.pad_to(4);
     w.done()
@@ -1472,7 +1488,7 @@ pub struct OutComp {
 pub enum OutGlyph {
     Empty,
     Simple { bbox: [i16; 4], contours: Vec<Vec<(i32, i32, bool)>> },
-    Composite { bbox: [i16; 4], comps: Vec<OutComp> },
+    Composite { bbox: [i16; 4], comps: Vec<OutComp>, instructions: Vec<u8> },
 }
 
 /// Parse one glyph record per the glyf specification. None = malformed.
@@ -1574,7 +1590,18 @@ pub fn read_glyph(rec: &[u8]) -> Option<OutGlyph> {
                 return None;
             }
         }
-        Some(OutGlyph::Composite { bbox, comps })
+        // WE_HAVE_INSTRUCTIONS on the last component: instructions follow
+        let mut instructions = Vec::new();
+        if comps.last().map_or(false, |c| c.flags & 0x0100 != 0) {
+            let n = r.u16()? as usize;
+            instructions = r.take(n)?.to_vec();
+        }
+        // nothing but up to three bytes of zero padding may follow
+        let rest = &rec[r.p..];
+        if rest.len() > 3 || rest.iter().any(|b| *b != 0) {
+            return None;
+        }
+        Some(OutGlyph::Composite { bbox, comps, instructions })
     }
 }
 
